@@ -501,6 +501,10 @@ pub fn encode_with_dist_header_multi(terms: &[&OwnedTerm]) -> Result<Vec<u8>, En
         let atom_bytes = atom.name.as_bytes();
         let atom_len = atom_bytes.len();
 
+        if atom_len > u16::MAX as usize {
+            return Err(EncodeError::AtomTooLarge { size: atom_len });
+        }
+
         if long_atoms {
             buf.put_u16(atom_len as u16);
         } else {
